@@ -15,25 +15,25 @@ Definition build_pos (req : list N) (opt aux : list (N * option Z)) : list docar
 Definition push_all (xs : list (N * option Z)) (args : list arg) (b : list (N * value)) : list (N * value) :=
   fold_left (fun acc p => bind acc (fst (fst p)) (arg_val (snd p))) (combine xs args) b.
 
-Lemma pass1_noargs ds m st : p_args st = [] -> pass1 ds m st = st.
+Lemma pass1_noargs ks al ds m st : p_args st = [] -> pass1 ks al ds m st = st.
 Proof. intros H. destruct ds; cbn; [reflexivity|]. rewrite H. reflexivity. Qed.
 
 Definition posmode (m : mode) : Prop := m = MReq \/ m = MOpt.
 
-Lemma pass1_vars xs : forall tl m args b r rs,
+Lemma pass1_vars ks al xs : forall tl m args b r rs,
   posmode m ->
-  pass1 (map Vd xs ++ tl) m {| p_args := args; p_b := b; p_rest := r; p_restsym := rs; p_err := None |} =
+  pass1 ks al (map Vd xs ++ tl) m {| p_args := args; p_b := b; p_rest := r; p_restsym := rs; p_err := None |} =
   let st' := {| p_args := skipn (length xs) args; p_b := push_all xs args b; p_rest := r; p_restsym := rs; p_err := None |} in
-  if (length args <=? length xs)%nat then st' else pass1 tl m st'.
+  if (length args <=? length xs)%nat then st' else pass1 ks al tl m st'.
 Proof.
   induction xs as [|[x d] xs IH]; intros tl m args b r rs Hm.
   - cbn [map app length skipn push_all combine fold_left]. destruct args; cbn; [apply pass1_noargs; reflexivity|reflexivity].
   - cbn [map app]. destruct args as [|a args].
     + cbn. reflexivity.
     + cbn [pass1 p_args p_err Vd d_name fst]. 
-      assert (E : pass1 (map Vd xs ++ tl) m {| p_args := args; p_b := bind b x (arg_val a); p_rest := r; p_restsym := rs; p_err := None |} =
+      assert (E : pass1 ks al (map Vd xs ++ tl) m {| p_args := args; p_b := bind b x (arg_val a); p_rest := r; p_restsym := rs; p_err := None |} =
                   (let st' := {| p_args := skipn (length xs) args; p_b := push_all xs args (bind b x (arg_val a)); p_rest := r; p_restsym := rs; p_err := None |} in
-                   if (length args <=? length xs)%nat then st' else pass1 tl m st')) by (apply IH; exact Hm).
+                   if (length args <=? length xs)%nat then st' else pass1 ks al tl m st')) by (apply IH; exact Hm).
       destruct Hm as [-> | ->]; cbn [p_b p_rest p_restsym]; rewrite E; reflexivity.
 Qed.
 
@@ -211,15 +211,15 @@ Proof. unfold build_pos, reqd. rewrite map_map. reflexivity. Qed.
 
 Definition st0 (args : list arg) : p1 := {| p_args := args; p_b := []; p_rest := []; p_restsym := None; p_err := None |}.
 
-Lemma pass1_auxpart aux m st : posmode m -> p_err st = None ->
-  pass1 (match aux with [] => [] | _ => Mk PAux :: map Vd aux end) m st = st.
+Lemma pass1_auxpart ks al aux m st : posmode m -> p_err st = None ->
+  pass1 ks al (match aux with [] => [] | _ => Mk PAux :: map Vd aux end) m st = st.
 Proof.
   intros Hm He. destruct aux as [|a aux]; [reflexivity|]. destruct st as [args b r rs e]. cbn in He. subst e.
   destruct args; [reflexivity|]. destruct Hm as [-> | ->]; reflexivity.
 Qed.
 
-Lemma pass1_pos req opt aux args :
-  pass1 (build_pos req opt aux) MReq (st0 args) =
+Lemma pass1_pos ks al req opt aux args :
+  pass1 ks al (build_pos req opt aux) MReq (st0 args) =
     {| p_args := skipn (length req + length opt) args;
        p_b := push_all opt (skipn (length req) args) (push_all (reqd req) args []);
        p_rest := []; p_restsym := None; p_err := None |}.
@@ -289,6 +289,24 @@ Proof.
   - intros x [->|Hx] Hb; [apply Hni; apply in_or_app; right; exact Hb|apply (H3 x Hx Hb)].
 Qed.
 
+Lemma req_count_build_pos req opt aux : req_count (build_pos req opt aux) = length req.
+Proof.
+  unfold build_pos. induction req as [|x req IH]; [|cbn; f_equal; exact IH].
+  cbn [map app length]. destruct opt; [destruct aux; reflexivity|reflexivity].
+Qed.
+Lemma bind_req_short req : forall args, (length args < length req)%nat -> bind_req req args = None.
+Proof.
+  induction req as [|x req IH]; intros args H; [cbn in H; lia|]. destruct args as [|a args]; [reflexivity|].
+  cbn [bind_req]. rewrite IH by (cbn in H; lia). reflexivity.
+Qed.
+(* too few arguments: the binder and the specification both reject *)
+Lemma bind_M_pos_short req opt aux args : (length args < length req)%nat ->
+  bind_M (build_pos req opt aux) args = OErr KTooFew.
+Proof.
+  intros H. unfold bind_M. fold (st0 args). rewrite pass1_pos. cbn [p_err p_args p_rest p_restsym p_b].
+  rewrite skipn_all2 by lia. rewrite req_count_build_pos. destruct (Nat.ltb_spec (length args) (length req)); [reflexivity|lia].
+Qed.
+
 Theorem bind_M_pos req opt aux args :
   NoDup (req ++ map fst opt ++ map fst aux) -> (length req <= length args)%nat ->
   bind_M (build_pos req opt aux) args =
@@ -298,7 +316,9 @@ Proof.
   destruct (Nat.ltb_spec (length req + length opt) (length args)) as [Hm|Hm].
   - destruct (skipn (length req + length opt) args) eqn:E; [|reflexivity].
     apply (f_equal (@length arg)) in E. rewrite skipn_length in E. cbn in E. lia.
-  - rewrite skipn_all2 by lia. rewrite pass2_pos, params_build_pos. f_equal.
+  - rewrite skipn_all2 by lia. rewrite req_count_build_pos.
+    destruct (Nat.ltb_spec (length args) (length req)) as [Hs|_]; [lia|].
+    rewrite pass2_pos, params_build_pos. f_equal.
     set (b1 := push_all opt (skipn (length req) args) (push_all (reqd req) args [])).
     set (b2 := auxbinds aux (defaults opt b1)).
     rewrite <- (spec_pos_keys req opt aux args Hlen).
@@ -350,9 +370,13 @@ Proof.
 Qed.
 
 Corollary binder_meets_spec_pos req opt aux args :
-  NoDup (req ++ map fst opt ++ map fst aux) -> (length req <= length args)%nat ->
+  NoDup (req ++ map fst opt ++ map fst aux) ->
   bind_M (build_pos req opt aux) args = bind_S (pos_ll req opt aux) args.
-Proof. intros H1 H2. rewrite bind_M_pos, bind_S_pos by assumption. reflexivity. Qed.
+Proof.
+  intros H1. destruct (Nat.le_gt_cases (length req) (length args)) as [H2|H2].
+  - rewrite bind_M_pos, bind_S_pos by assumption. reflexivity.
+  - rewrite bind_M_pos_short by exact H2. unfold bind_S, pos_ll. cbn [l_req]. rewrite bind_req_short by exact H2. reflexivity.
+Qed.
 
 (* no required parameter ever receives an argument from another position *)
 Corollary required_positional req opt aux args i x a :
@@ -383,12 +407,28 @@ Definition w_missing_value := ([Mk PKey; D 1], [AKw 1]).
 (* (defun f (&rest r &aux (x 5)) ...) called as (f :x 1): the rest list stops at :x because x names a later
    (auxiliary) parameter; r is nil instead of (:x 1) *)
 Definition w_rest_aux := ([Mk PRest; D 0; Mk PAux; {| d_name := PVar 1; d_def := Some 5%Z |}], [AKw 1; AInt 1%Z]).
-Definition witnesses := [w_too_few; w_unknown_key; w_key_clobbers; w_dup_key; w_rest_key; w_missing_value; w_rest_aux].
-Lemma rest_aux_witness :
-  bind_M (fst w_rest_aux) (snd w_rest_aux) = OBound [(0, VNil); (1, VInt 5)] /\
-  spec_of (fst w_rest_aux) (snd w_rest_aux) = Some (OBound [(0, VList [AKw 1; AInt 1%Z]); (1, VInt 5)]).
-Proof. split; vm_compute; reflexivity. Qed.
+(* the one refutation left: &rest together with &key *)
+Definition witnesses := [w_rest_key].
 Lemma outside_guard_refuted : forallb (fun w => refuted (fst w) (snd w)) witnesses = true.
+Proof. vm_compute. reflexivity. Qed.
+Lemma rest_key_witness :
+  bind_M (fst w_rest_key) (snd w_rest_key) = OBound [(0, VNil); (1, VInt 1)] /\
+  spec_of (fst w_rest_key) (snd w_rest_key) = Some (OBound [(0, VList [AKw 1; AInt 1%Z]); (1, VInt 1)]).
+Proof. split; vm_compute; reflexivity. Qed.
+
+(* the witnesses of the repaired defects (C04-3 .. C04-8): the binder now yields exactly what the lambda
+   list prescribes on each of them *)
+Definition w_allow_arg := ([D 0; Mk PKey; D 1], [AInt 1%Z; AKw 9; AInt 5%Z; AKw allow_kw; AInt 1%Z]).
+Definition w_allow_marker := ([D 0; Mk PKey; D 1; Mk PAllow], [AInt 1%Z; AKw 9; AInt 5%Z; AKw 1; AInt 2%Z]).
+Definition repaired_witnesses :=
+  [ (w_too_few, OErr KTooFew); (w_unknown_key, OErr KBadKey); (w_key_clobbers, OErr KBadKey);
+    (w_dup_key, OBound [(1, VInt 1)]); (w_missing_value, OErr KBadKey);
+    (w_rest_aux, OBound [(0, VList [AKw 1; AInt 1%Z]); (1, VInt 5)]);
+    (w_allow_arg, OBound [(0, VInt 1); (1, VNil)]); (w_allow_marker, OBound [(0, VInt 1); (1, VInt 2)]) ].
+Definition repaired (w : (list docarg * list arg) * outcome) : bool :=
+  let '((ds, args), o) := w in
+  outcome_eqb (bind_M ds args) o && match spec_of ds args with Some s => outcome_eqb s o | None => false end && in_domain ds args.
+Lemma repaired_witnesses_ok : forallb repaired repaired_witnesses = true.
 Proof. vm_compute. reflexivity. Qed.
 
 Lemma guard_examples :
